@@ -226,6 +226,22 @@ fn run_suite<S: ShortGroupSignatureScheme + 'static>(em: &mut Emitter, base: &mu
             if let Out::Ok(p) = steered_create(&scn.credentials, &schema_less, &scn.schema, &scn.nonce, Some(reported)) {
                 judge(em, suite, "withhold", &scn, &p, &l);
             }
+            // a requested claim withheld and an unrequested one of the same credential reported in its place: the same
+            // number of labels, every reported value genuinely signed and genuinely revealed by the proof
+            for (oi, o) in LABELS.iter().enumerate().take(n_claims) {
+                if requested.contains(*o) || (oi == 0 && mix.revocation) {
+                    continue;
+                }
+                let mut other = less.clone();
+                other.insert(o.to_string());
+                let schema_other = with_disclosed(&scn.schema, &sid, &other);
+                let mut reported = Reported::new();
+                reported.insert(sid.clone(), honest_map(&other));
+                if let Out::Ok(p) = steered_create(&scn.credentials, &schema_other, &scn.schema, &scn.nonce, Some(reported)) {
+                    judge(em, suite, "label-substituted", &scn, &p, &format!("{} withheld, {} reported", l, o));
+                }
+                break;
+            }
         }
         // withhold several / all requested claims at once
         if d.len() >= 2 {
@@ -387,7 +403,7 @@ fn multi_credential<S: ShortGroupSignatureScheme + 'static>(em: &mut Emitter, ba
 pub fn gen_c02(em: &mut Emitter, rng: &mut Rng) {
     em.rule = "deviating holders that own a valid credential: the real prover is driven with the verifier's transcript (challenge override) for a \
                statement that hides / adds a claim while the reported map says otherwise — substituted value (same / other claim type, with the \
-               proof's inner map untouched, padded with the false or the true scalar), withheld label, extra label, swapped values; plus index-list \
+               proof's inner map untouched, padded with the false or the true scalar), withheld label, extra label, a requested label replaced by an unrequested one, swapped values; plus index-list \
                shapes (reversed, padded out of range, entry removed, value changed, hidden index added) and plain edits. oracle: accepted ⇒ reported \
                label set = requested ∩ schema labels and every reported claim = the signed claim. With 2-3 signature statements: \
                the reported maps re-filed (entries reordered, ids exchanged, maps exchanged, honest map parked under a foreign id, one map for all): \
